@@ -4,7 +4,9 @@
    multiplication by the declared NONRESIDUE, schoolbook products with the generated hooks), per-curve overrides of
    SWCurveConfig / TECurveConfig :: mul_by_a (= e * COEFF_A under the premise on the declared constant), cubic norm,
    cyclotomic inverses, mul_by_fp helpers, Frobenius-coefficient hooks (C02), subtraction wrappers (C03), cofactor
-   multiplication / clearing and Budroni-Pintore clearing on bls12_381 G2 (C12 `bp_clear`).
+   multiplication / clearing and Budroni-Pintore clearing on bls12_381 G2 (C12 `bp_clear`), point serialisation
+   `serialize_with_mode` / `serialized_size` of both curve models (C09 `sw_enc`, `te_enc`, `sw_size`, `te_size`; the writer
+   is the list of items written, read back by [items_bytes]).
    `*_eq`: the generated definition equals the hand-written model function, for all arguments; `*_spec` / `*_ok` /
    `*_correct`: corollaries composed with the C02 / C03 theorems.  Premises of the form "nr = -1", "a = 0", "k1 = k0"
    are the facts about declared constants that C16 checks on every shipped configuration.
@@ -12,7 +14,7 @@
 From V Require Import Base.Field Gen.GenField Gen.GenFieldSpecs Gen.GenField2 Gen.GenField2Specs Gen.GenField3 Gen.GenField3Specs.
 From V Require Import C03.SWModel C03.TEModel C03.SWProofs C03.TEProofs C03.FieldHyp.
 From V Require Import C02.Quad C02.Cubic C02.Towers C02.QuadProofs C02.Inst.
-From V Require C12.SubgroupModel.
+From V Require C12.SubgroupModel C09.Bytes C09.FpCodec C09.PointCodec.
 
 Theorem Gen3_bls12_381_fq2_mul_fp_by_nonresidue_eq :
   forall (T : Type) (F : Fops T),
@@ -834,3 +836,45 @@ Theorem Gen3_te_default_clear_cofactor_eq :
   gen_te_default_clear_cofactor F (SubgroupModel.limbs_val hl) (SubgroupModel.te_mul_affine F a d) A =
   te_opt_as_gen (SubgroupModel.te_clear_cofactor_default F a d hl A).
 Proof. exact (@gen_te_default_clear_cofactor_eq). Qed.
+
+Theorem Gen3_swflag_of_as_gen :
+  forall f : FpCodec.swflag, swflag_of_gen (swflag_as_gen f) = f.
+Proof. exact (@swflag_of_as_gen). Qed.
+
+Theorem Gen3_teflag_of_as_gen :
+  forall f : FpCodec.teflag, teflag_of_gen (teflag_as_gen f) = f.
+Proof. exact (@teflag_of_as_gen). Qed.
+
+Theorem Gen3_swflags_infinity_eq :
+  forall (K : Type) (F : Fops K), gen_swflags_infinity F = swflag_as_gen FpCodec.PointAtInfinity.
+Proof. exact (@gen_swflags_infinity_eq). Qed.
+
+Theorem Gen3_sw_serialize_with_mode_eq :
+  forall (K : Type) (F : Fops K) (C : FpCodec.Codec K),
+  ring_theory (f0 F) (f1 F) (fadd F) (fmul F) (fsub F) (fneg F) eq ->
+  forall (cmp : K -> K -> comparison) (x y : K) (inf compress : bool),
+  items_bytes (sw_item_bytes C)
+  (gen_sw_serialize_with_mode F (PointCodec.flt cmp) (PointCodec.fle cmp) (x, y, inf) [] compress) =
+  PointCodec.sw_enc F C cmp {| PointCodec.sx := x; PointCodec.sy := y; PointCodec.sinf := inf |} compress.
+Proof. exact (@gen_sw_serialize_with_mode_eq). Qed.
+
+Theorem Gen3_te_serialize_with_mode_eq :
+  forall (K : Type) (F : Fops K) (C : FpCodec.Codec K),
+  ring_theory (f0 F) (f1 F) (fadd F) (fmul F) (fsub F) (fneg F) eq ->
+  forall (cmp : K -> K -> comparison) (x y : K) (compress : bool),
+  items_bytes (te_item_bytes C)
+  (gen_te_serialize_with_mode F (PointCodec.flt cmp) (PointCodec.fle cmp) (x, y) [] compress) =
+  PointCodec.te_enc F C cmp {| PointCodec.tx := x; PointCodec.ty := y |} compress.
+Proof. exact (@gen_te_serialize_with_mode_eq). Qed.
+
+Theorem Gen3_sw_serialized_size_eq :
+  forall (K : Type) (F : Fops K) (C : FpCodec.Codec K) (compress : bool),
+  gen_sw_serialized_size F (FpCodec.c_size C FpCodec.SWFlags) (FpCodec.c_sizep C) compress =
+  PointCodec.sw_size C compress.
+Proof. exact (@gen_sw_serialized_size_eq). Qed.
+
+Theorem Gen3_te_serialized_size_eq :
+  forall (K : Type) (F : Fops K) (C : FpCodec.Codec K) (compress : bool),
+  gen_te_serialized_size F (FpCodec.c_size C FpCodec.TEFlags) (FpCodec.c_sizep C) compress =
+  PointCodec.te_size C compress.
+Proof. exact (@gen_te_serialized_size_eq). Qed.
